@@ -156,6 +156,37 @@ SITE_OF_LOC = {
 }
 
 
+_ERRORS = None
+
+
+def error_table():
+    """text of every SPDCError on the configuration path -> the model's Err constructor, as the generator READ it from the source
+    (Gen/ConfigSites.v: error_messages); no message text is written down in the checks"""
+    global _ERRORS
+    if _ERRORS is None:
+        import os
+        import re
+        from vlib.common import COQ
+        src = open(os.path.join(COQ, "Gen", "ConfigSites.v")).read()
+        m = re.search(r"Definition error_messages[^=]*:=\s*\[(.*?)\]\.", src, re.S)
+        _ERRORS = {}
+        if m:
+            for a, c in re.findall(r'\("((?:[^"]|"")*)", "([^"]*)"\)', m.group(1)):
+                _ERRORS[a.replace('""', '"')] = c
+    return _ERRORS
+
+
+def error_class(msg):
+    """err:<class> of an error message (exact text, or the text embedded in a longer message such as an unwrap panic's)"""
+    t = error_table()
+    if msg in t:
+        return t[msg]
+    for a, c in t.items():
+        if a and a in msg:
+            return c
+    return None
+
+
 def real_class(step):
     """class label of a harness step / real outcome in the model's vocabulary (coarse: ok / err:<kind> / panic:<file>)"""
     c = step["class"]
@@ -163,17 +194,9 @@ def real_class(step):
         return "ok"
     if c == "err":
         m = step.get("msg", "")
-        if m.startswith("Must specify one of"):
-            return "err:theta_spec"
-        if m.startswith("Can not autocalc theta") or m.startswith("auto theta with poling"):
+        if m == "auto theta with poling":      # the shadow construction's own label for the rule it replays
             return "err:auto_theta_with_poling"
-        if m.startswith("Signal wavelength must be greater"):
-            return "err:signal_le_pump"
-        if m.startswith("Could not determine poling period"):
-            return "err:impossible_period"
-        if m.startswith("Poling period must"):
-            return "err:bad_period"
-        return "err:?" + m[:40]
+        return error_class(m) or ("err:?" + m[:40])
     return "panic@" + step.get("loc", "?").rsplit(":", 1)[0]
 
 
